@@ -102,7 +102,7 @@ def ensure(verbose=False, repo=REPO):
     env['PYTHONPATH'] = src + os.pathsep + here
     env['PYTHONHASHSEED'] = '0'
     env['PYSPH_VERIF'] = '1'
-    env.setdefault('OMP_NUM_THREADS', '4')
+    env.setdefault('OMP_NUM_THREADS', '1')
     env['VERIF_SRC'] = src
     env['VERIF_SCRATCH'] = os.path.join(base, 'scratch')
     os.makedirs(env['VERIF_SCRATCH'], exist_ok=True)
